@@ -26,7 +26,8 @@ def layout_ops(cap, size):
             ["copy_shallow", "swap"], ["copy_deep", "swap"], ["filter 2 1", "swap"], ["filter 1 0"], ["filter 1 1", "swap"],
             ["filter_mut 2 1"], ["filter_mut 3 1"], ["filter_mut 1 0"], ["filter_mut 1 1"], ["filter_mut 3 2"],
             ["contains 100"], ["contains 7"], ["contains_value 110"], ["index_of 7"],
-            ["trim", "add_last 8", "add_first 9"], ["copy_shallow", "swap", "remove_first", "add_last 8", "add_last 9"]]
+            ["trim", "add_last 8", "add_first 9"], ["trim", "remove_first", "add_last 8", "get_last", "add_last 9", "get_at 0"],
+            ["trim", "remove_last", "add_first 8", "get_first", "add_first 9"], ["copy_shallow", "swap", "remove_first", "add_last 8", "add_last 9"]]
     for i in range(size):
         ops += [["remove %d" % (100 + i)], ["index_of %d" % (100 + i)]]
     return ops
